@@ -2294,7 +2294,11 @@ func (self *LockDB) Lock(serverProtocol ServerProtocol, command *protocol.LockCo
 				self.RemoveLockManager(lockManager)
 			}
 			lockManager.state.LockCount++
-			command.LockId = lockManager.currentLock.command.LockId
+			if lockManager.currentLock != nil {
+				command.LockId = lockManager.currentLock.command.LockId
+			} else if waitLock := lockManager.GetWaitLock(); waitLock != nil {
+				command.LockId = waitLock.command.LockId
+			}
 			lockManager.glock.Unlock()
 
 			_ = serverProtocol.ProcessLockResultCommand(command, protocol.RESULT_SUCCED, uint16(lockManager.locked), lock.locked, lockData)
